@@ -39,6 +39,13 @@ class NetworkImpl:
 
         self.l1 = layer(W1[rec], 2, 2)
         self.l2 = layer(W2[rec], 2, 1)
+        self.hooks = []
+        if c.get("Clamp", "none") == "box":
+            # the quickstart's weight bounding: a Clamping hook on each updater (kept alive: a collected hook deregisters)
+            for lay in (self.l1, self.l2):
+                h = neural.Clamping(lay.connection.updater, "parent.weight", min=0.0, max=16.0)
+                h.register()
+                self.hooks.append(h)
         self.trainer = learn.STDP(lr_post=self.lr_post, lr_pre=self.lr_pre, tc_post=tau, tc_pre=tau)
         self.trainer.register_cell("one", self.l1.cell)
         self.trainer.register_cell("two", self.l2.cell)
